@@ -46,6 +46,9 @@ Formers == [
   var    |-> [c |-> Atom, tpl |-> <<tk("a", "ent")>>],
   hole   |-> [c |-> Atom, tpl |-> <<tk("_", "ent")>>],
   lit    |-> [c |-> Atom, tpl |-> <<tk("1", "ent")>>],
+  \* a literal splice: the `--|` block directly above the annotation is its VALUE (rendered as two lines by the harness:
+  \* the token `@(literal)` is preceded by a line `--| spliced text`); C13: documentation stays attached
+  splice |-> [c |-> Binder, tpl |-> <<tk("--| spliced text\n@(literal)", "ent")>>],
   thunk  |-> [c |-> Atom, tpl |-> <<tk("{", "ent"), sl(AnyT), tk("}", "close")>>],
   force  |-> [c |-> Atom, tpl |-> <<tk("!", "ent"), sl(Atom)>>],
   ret    |-> [c |-> Atom, tpl |-> <<tk("ret", "ent"), sl(Atom)>>],
